@@ -237,11 +237,11 @@ fn vv(value: &str, version: u64, st: u8) -> VersionedValue {
 fn verif_c18_catchup() {
     let mut r = Report::new(
         "c18_catchup",
-        "copies {absent, empty, mid-reset (gc5,max3), ahead (0,9), behind (0,2) with keys a@1 b@2 (all set / b a tombstone / a TTL-marked), removed-and-remembered} x supplied key sets over {a,b,c} with versions in {1,4,7} and every status x max_version in {0,3,5,7,9} x last_gc in {0,2,5,8}",
+        "copies {absent, empty, mid-reset (gc5,max3), collected (gc2,max3), ahead (0,9), behind (0,2) with keys a@1 b@2 (all set / b a tombstone / a TTL-marked), removed-and-remembered} x supplied key sets over {a,b,c} with versions in {1,4,7} and every status x max_version in {0,3,5,7,9} x last_gc in {0,2,5,8}",
         true,
     );
     let other = ChitchatId::for_local_test(2);
-    let copies = ["absent", "empty", "midreset", "ahead", "behind", "behind_tombstone", "behind_ttl", "removed"];
+    let copies = ["absent", "empty", "midreset", "collected", "ahead", "behind", "behind_tombstone", "behind_ttl", "removed"];
     // supplied key sets
     let mut supplied: Vec<Vec<(String, u64, u8)>> = vec![vec![]];
     for ka in [None, Some((1u64, 0u8)), Some((4, 1)), Some((7, 2))] {
@@ -284,6 +284,12 @@ fn verif_c18_catchup() {
                             let ns = n.cluster_state.node_state_mut_or_init(&other);
                             ns.set_versioned_value("a".to_string(), vv("x", 3, 0));
                             ns.set_last_gc_version(5);
+                        }
+                        "collected" => {
+                            // not mid-reset, but with a non-zero watermark (it has collected tombstones)
+                            let ns = n.cluster_state.node_state_mut_or_init(&other);
+                            ns.set_versioned_value("a".to_string(), vv("x", 3, 0));
+                            ns.set_last_gc_version(2);
                         }
                         "ahead" => {
                             let ns = n.cluster_state.node_state_mut_or_init(&other);
@@ -611,11 +617,12 @@ fn verif_c20_callback() {
 fn verif_c05_owner() {
     let mut r = Report::new(
         "c05_owner",
-        "owner with 3 keys (one tombstone), versions up to 4, watermark in {0,2}; every Syn / SynAck / Ack whose digest names the owner with heartbeat in {0, own, own+1000} and frontier <= the owner's, and whose delta about the owner has watermark <= owner max, max version <= owner max, from in 0..=4, 0..2 key-values (possibly conflicting values)",
+        "owner with 3 keys (one tombstone), versions up to 4, watermark in {0,2}; every Syn / SynAck / Ack whose digest names the owner with heartbeat in {0, 1, 1000, 5000} (the owner's own is about 2500) and frontier <= the owner's, and whose delta about the owner has watermark <= owner max, max version <= owner max, from in 0..=4, 0..2 key-values (possibly conflicting values)",
         true,
     );
     for own_gc in [0u64, 2] {
-        for dhb in [0u64, 1, 1000] {
+        // digest heartbeats: 0, 1, far below the owner's (the owner has beaten 2500 times), far above
+        for dhb in [0u64, 1, 1000, 5000] {
             for from in 0..=4u64 {
                 for dgc in 0..=4u64 {
                     for dmax in 0..=4u64 {
@@ -640,6 +647,10 @@ fn verif_c05_owner() {
                                     ns.set("c", "3");
                                     ns.delete("b");
                                     ns.set_last_gc_version(own_gc);
+                                    // a long-lived owner: peers' copies of its heartbeat may lag by thousands
+                                    for _ in 0..2500 {
+                                        ns.inc_heartbeat();
+                                    }
                                 }
                                 let snapshot = |n: &Chitchat| {
                                     let ns = n.node_state(&me).unwrap();
